@@ -69,7 +69,7 @@ fn main() {
         let mut prog = String::new();
         let len = 5 + r.below(40);
         for _ in 0..len {
-            let op = r.below(22);
+            let op = r.below(26);
             let name: &'static str = match op {
                 0 => { if k % 3 == 0 { fastrace::set_reporter(CountingReporter, Config::default().cancelable(r.chance(1, 2))); } "set_reporter" }
                 1 => { spans.push(Span::root("r", SpanContext::new(TraceId(r.u128()), SpanId(r.next())).sampled(r.chance(2, 3)))); "root" }
@@ -101,7 +101,16 @@ fn main() {
                         if h.join().unwrap_or(true) { bad("context on another thread", &violations); } "thread" }
                 19 => { spans.push(Span::noop()); "noop" }
                 20 => { if SpanContext::current_local_parent().is_some() { bad("current_local_parent is Some (no scope)", &violations); } "curl" }
-                _ => { let _ = SpanContext::random().encode_w3c_traceparent(); "codec" }
+                21 => { let _ = SpanContext::random().encode_w3c_traceparent(); "codec" }
+                // the remaining public entry points: the deprecated event shims, the plural /
+                // singular event-property forms, enter_on_poll
+                22 => { #[allow(deprecated)] { if let Some(p) = spans.last() { Event::add_to_parent("old-ev", p, || { let (k, v) = prop(); [(std::borrow::Cow::from(k), std::borrow::Cow::from(v))] }); } Event::add_to_local_parent("old-lev", || { let (k, v) = prop(); [(std::borrow::Cow::from(k), std::borrow::Cow::from(v))] }); } "event_shims" }
+                23 => { let ev = Event::new("e2").with_properties(|| [prop(), prop()]).with_property(prop); LocalSpan::add_event(ev);
+                        if let Some(p) = spans.last() { p.add_event(Event::new("e3").with_property(prop)); } "event_props" }
+                24 => { use fastrace::future::FutureExt; let waker = Waker::from(Arc::new(NoWake)); let mut cx = Context::from_waker(&waker);
+                        let mut f = Box::pin(async { LocalSpan::add_properties(|| [prop()]); 2u8 }.enter_on_poll("eop"));
+                        let _ = f.as_mut().poll(&mut cx); "enter_on_poll" }
+                _ => { let c = LocalCollector::start(); { let _g = spans.last().map(|p| p.set_local_parent()); LocalSpan::add_properties(|| [prop()]); } drop(c); "collector_drop" }
             };
             *ops.entry(name).or_insert(0) += 1;
             prog.push_str(name);
